@@ -89,12 +89,17 @@ CBMM_MIN_PERTURBATION = 1e-4  # below: Bingham concentrations > 1e8, normaliser/
 # separable scenes, blurred true start, iterate i of the real trainer -> driver_em -> one model EM step, compared with
 # the code's iterate i + 1 by C02's step-wise machinery, plus the arg-max class of the model E-step against the code's.
 CORR_FAMILIES = ['cwmm', 'cacgmm', 'gmm-spherical', 'gmm-diagonal', 'gmm-full', 'gcacgmm-spherical', 'gcacgmm-full',
-                 'gcacgmm-diagonal']
+                 'gcacgmm-diagonal', 'vmfmm']
 TIE_MARGIN = 1e-9
 
 
 def _corr_level(rng, family):
     """perturbation level of a correspondence scene (never exactly 0: the Gaussian families have no density there)"""
+    if family == 'vmfmm':
+        # on C03's domain (perturbation <= 1e-2) Banerjee's concentration ~ 1/level^2 exceeds max_concentration = 500: every
+        # in-domain vMF step is guard-active (compared on the guard-independent parts); half of the cases are drawn just
+        # beyond the domain (0.06 .. 0.3), where the complete M-step is compared
+        return float(10 ** rng.uniform(-3, -2)) if rng.random() < 0.5 else float(rng.uniform(0.06, 0.3))
     if family in ('gmm-full', 'gcacgmm-full'):
         # full covariances of near-noise-free classes have condition numbers ~ 1/level^2; the driver's Cholesky and LAPACK's
         # then agree to ~1e-16/level^2 only: levels are kept where that stays below the 1e-9 comparison tolerance
@@ -115,7 +120,7 @@ def _corr_level(rng, family):
 
 def _corr_scene(rng, family):
     """one separable scene in the layout c02._line / c02._compare expect (leading axis F, flat observations)"""
-    gauss = family.startswith('gmm-')
+    gauss = family.startswith('gmm-') or family == 'vmfmm'
     integ = family.startswith('gcacgmm')
     K = int(rng.integers(2, 5))
     D = int(rng.integers(K, 9 if not integ else 6))
@@ -220,7 +225,7 @@ def _compare_guarded(ctx, c, m_next, g, post_code, guard):
 
 def corr(ctx):
     rng = ctx.rng
-    n = ctx.n(40, 600)
+    n = ctx.n(54, 720)
     cases, lines, models = [], [], []
     for j in range(n):
         if ctx.out_of_time(30):
